@@ -782,19 +782,30 @@ double __sym_un(const char* name, double a) {
   auto feq = [&](const z3::expr& p, const z3::expr& q) { return z3::expr(*ctx, Z3_mk_fpa_eq(*ctx, p, q)); };
   auto flt = [&](const z3::expr& p, const z3::expr& q) { return z3::expr(*ctx, Z3_mk_fpa_lt(*ctx, p, q)); };
   auto fle = [&](const z3::expr& p, const z3::expr& q) { return z3::expr(*ctx, Z3_mk_fpa_leq(*ctx, p, q)); };
-  if (n == "exp") { use_axiom("FP exp: exp(NaN)=NaN, exp(-inf)=+0, exp(+inf)=+inf, exp(x)>=+0 never NaN otherwise, exp(x)<=1 iff x<=0, exp(0)=1, non-decreasing");
+  if (n == "exp") { use_axiom("FP exp: exp(NaN)=NaN, exp(-inf)=+0, exp(+inf)=+inf, exp(x)>=+0 never NaN otherwise, exp(x)<=1 iff x<=0, exp(0)=1, non-decreasing, finite for x<=709, +inf for x>=710, +0 for x<=-746, positive for x>=-744");
     add_pc(isnan(x) == isnan(r)); add_pc(z3::implies(feq(x, ninf), feq(r, zero))); add_pc(z3::implies(feq(x, pinf), feq(r, pinf)));
     add_pc(z3::implies(!isnan(x), fle(zero, r))); add_pc(z3::implies(!isnan(x), fle(x, zero) == fle(r, one))); add_pc(z3::implies(feq(x, zero), feq(r, one)));
     add_pc(z3::implies(!isnan(x) && !feq(x, ninf), flt(zero, r) || flt(x, ctx->fpa_val(-700.0))));
+    // overflow / underflow thresholds of the binary64 exponential (log DBL_MAX = 709.78..., log of the smallest subnormal = -744.44...)
+    add_pc(z3::implies(fle(x, ctx->fpa_val(709.0)), flt(r, pinf))); add_pc(z3::implies(fle(ctx->fpa_val(710.0), x), feq(r, pinf)));
+    add_pc(z3::implies(fle(x, ctx->fpa_val(-746.0)), feq(r, zero))); add_pc(z3::implies(fle(ctx->fpa_val(-744.0), x), flt(zero, r)));
     static std::vector<std::pair<z3::expr, z3::expr>>* prev = new std::vector<std::pair<z3::expr, z3::expr>>();
     for (auto& pr : *prev) { add_pc(z3::implies(fle(pr.first, x), fle(pr.second, r))); add_pc(z3::implies(fle(x, pr.first), fle(r, pr.second))); }
     prev->push_back({x, r}); }
-  else if (n == "log") { use_axiom("FP log: log(NaN)=NaN, log(x<0)=NaN, log(+-0)=-inf, log(+inf)=+inf, log(1)=0, finite for finite x>0, log(x)<=0 iff x<=1, non-decreasing");
+  else if (n == "log") { use_axiom("FP log: log(NaN)=NaN, log(x<0)=NaN, log(+-0)=-inf, log(+inf)=+inf, log(1)=0, finite for finite x>0, log(x)<=0 iff x<=1, log(x)<=x for x>=1, non-decreasing");
     add_pc(z3::implies(isnan(x) || flt(x, zero), isnan(r))); add_pc(z3::implies(feq(x, zero), feq(r, ninf))); add_pc(z3::implies(feq(x, pinf), feq(r, pinf)));
     add_pc(z3::implies(flt(zero, x), !isnan(r))); add_pc(z3::implies(flt(zero, x) && !feq(x, pinf), flt(ninf, r) && flt(r, pinf)));
-    add_pc(z3::implies(flt(zero, x), fle(x, one) == fle(r, zero))); add_pc(z3::implies(feq(x, one), feq(r, zero)));
+    add_pc(z3::implies(flt(zero, x), fle(x, one) == fle(r, zero))); add_pc(z3::implies(feq(x, one), feq(r, zero))); add_pc(z3::implies(fle(one, x), fle(r, x)));
     static std::vector<std::pair<z3::expr, z3::expr>>* prev = new std::vector<std::pair<z3::expr, z3::expr>>();
     for (auto& pr : *prev) { add_pc(z3::implies(fle(pr.first, x) && fle(zero, pr.first), fle(pr.second, r))); add_pc(z3::implies(fle(x, pr.first) && fle(zero, x), fle(r, pr.second))); }
+    prev->push_back({x, r}); }
+  else if (n == "log1p") { use_axiom("FP log1p: log1p(NaN)=NaN, log1p(x<-1)=NaN, log1p(-1)=-inf, log1p(+inf)=+inf, log1p(+-0)=0, finite for finite x>-1, sign of x, 0<=log1p(x)<=x for x>=0, non-decreasing");
+    z3::expr mone = ctx->fpa_val(-1.0);
+    add_pc(z3::implies(isnan(x) || flt(x, mone), isnan(r))); add_pc(z3::implies(feq(x, mone), feq(r, ninf))); add_pc(z3::implies(feq(x, pinf), feq(r, pinf)));
+    add_pc(z3::implies(flt(mone, x), !isnan(r))); add_pc(z3::implies(flt(mone, x) && !feq(x, pinf), flt(ninf, r) && flt(r, pinf)));
+    add_pc(z3::implies(flt(mone, x), fle(x, zero) == fle(r, zero))); add_pc(z3::implies(feq(x, zero), feq(r, zero))); add_pc(z3::implies(fle(zero, x), fle(zero, r) && fle(r, x)));
+    static std::vector<std::pair<z3::expr, z3::expr>>* prev = new std::vector<std::pair<z3::expr, z3::expr>>();
+    for (auto& pr : *prev) { add_pc(z3::implies(fle(pr.first, x) && fle(mone, pr.first), fle(pr.second, r))); add_pc(z3::implies(fle(x, pr.first) && fle(mone, x), fle(r, pr.second))); }
     prev->push_back({x, r}); }
   else { std::string m = "transcendental '" + n + "' of a symbolic value has no FP-mode model"; path_exit(3, m.c_str()); }
   return mk_handle(r);
